@@ -350,6 +350,65 @@ pub fn t_cast_narrow(a: u64) -> u8 {
     (y as u8) ^ ((a >> 56) as u8)
 }
 
+pub fn t_rev_enumerate(seed: u32) -> [u8; 4] {
+    let mut grid = [0_u8, 1, 2, 3];
+    let mut out = grid;
+    let mut s = seed;
+    for (idx, i) in (1..=4_u32).rev().enumerate() {
+        let r = s % i;
+        s /= i;
+        out[idx] = grid[r as usize];
+        let copy = i - r - 1;
+        for j in 0..copy as usize {
+            grid[r as usize + j] = grid[r as usize + j + 1];
+        }
+    }
+    out
+}
+
+pub fn t_result_match(a: u8) -> u8 {
+    let r = res_of(a);
+    match r {
+        Ok(v) => v,
+        Err(e) => e + 100,
+    }
+}
+
+fn res_of(a: u8) -> Result<u8, u8> {
+    if a % 3 == 0 {
+        return Err(a / 3);
+    }
+    Ok(a - 1)
+}
+
+pub fn t_be_header(data: [u8; 6]) -> (u16, u32) {
+    let size = u16::from_be_bytes([data[0], data[1]]);
+    let opcode = u32::from_le_bytes([data[2], data[3], data[4], data[5]]);
+    (size, opcode)
+}
+
+pub fn t_large_header(size: u32, opcode: u16) -> [u8; 5] {
+    let s = size.to_be_bytes();
+    let o = opcode.to_le_bytes();
+    if size > 0x7FFF {
+        [s[1] | 0x80, s[2], s[3], o[0], o[1]]
+    } else {
+        [s[2], s[3], o[0], o[1], 0]
+    }
+}
+
+pub fn t_suffix_strip(data: &[u8]) -> usize {
+    let mut s = &data[..];
+    if s.len() % 2 == 1 {
+        s = &s[1..];
+    }
+    let mut lead = 0;
+    while lead < s.len() && s[lead] == 0 {
+        lead += 1;
+    }
+    s.len() - lead
+}
+
 // ---- functions the translator must REFUSE (prefix r_): writes through a mutable alias that the translation
 // would not propagate to the aliased variable.  They are valid Rust; the point is that the translator says
 // "outside the subset" instead of producing a wrong term.
